@@ -149,11 +149,11 @@ class PackedTensor(torch.Tensor):
         elif op.overloadpacket in (torch.ops.aten._to_copy, torch.ops.aten.to):
             t = args[0]
             dtype = kwargs.get("dtype", torch.uint8)
-            if dtype != torch.uint8:
-                raise ValueError(f"PackedTensor are torch.uint8 only and cannot be moved to {dtype}.")
-            # Move data
-            data = op(t._data, **kwargs)
-            return PackedTensor(data, t._bits, t.size(), t.stride())
+            if dtype == torch.uint8:
+                # Move data
+                data = op(t._data, **kwargs)
+                return PackedTensor(data, t._bits, t.size(), t.stride())
+            # PackedTensor are torch.uint8 only: a conversion to another dtype applies to the unpacked values
         args, kwargs = pytree.tree_map_only(PackedTensor, lambda x: x.unpack(), (args, kwargs or {}))
         return op(*args, **kwargs)
 
